@@ -251,3 +251,163 @@ func returnsAvoiding(fn *ssa.Function, must map[ssa.Instruction]bool, exempt fun
 	}
 	return token.NoPos, false
 }
+
+// innermostLoop: the smallest natural loop of the function that contains block b (header, body); nil when b is in no loop.
+func innermostLoop(b *ssa.BasicBlock) (*ssa.BasicBlock, map[*ssa.BasicBlock]bool) {
+	var bestH *ssa.BasicBlock
+	var best map[*ssa.BasicBlock]bool
+	for _, h := range loopHeaders(b.Parent()) {
+		body := naturalLoop(h)
+		if body[b] && (best == nil || len(body) < len(best)) {
+			bestH, best = h, body
+		}
+	}
+	return bestH, best
+}
+
+// everyIteration: block b of the loop (h, body) is executed on every iteration (no way from the header back to it avoids
+// b) and the loop is left only at its header. Returns a reason when that does not hold.
+func everyIteration(h *ssa.BasicBlock, body map[*ssa.BasicBlock]bool, b *ssa.BasicBlock) string {
+	for x := range body {
+		if x == h {
+			continue
+		}
+		for _, s := range x.Succs {
+			if !body[s] {
+				return "the loop is left from its body"
+			}
+		}
+	}
+	seen := map[*ssa.BasicBlock]bool{}
+	var stack []*ssa.BasicBlock
+	for _, s := range h.Succs {
+		if body[s] {
+			stack = append(stack, s)
+		}
+	}
+	for len(stack) > 0 {
+		x := stack[len(stack)-1]
+		stack = stack[:len(stack)-1]
+		if seen[x] || x == b {
+			continue
+		}
+		if x == h {
+			return "an iteration can end without it"
+		}
+		seen[x] = true
+		for _, s := range x.Succs {
+			if body[s] {
+				stack = append(stack, s)
+			}
+		}
+	}
+	return ""
+}
+
+// jobsScopeEntries: judges how checkWorkflowCallOutputs fills the jobs context: the object stored into jobsTy is built from
+// a map that receives, on every iteration of one loop, an entry whose "outputs" member holds the outputs of the job found
+// under the entry's key.
+func jobsScopeEntries(fn *ssa.Function) (pos token.Pos, why string) {
+	pos = fn.Pos()
+	var maps []ssa.Value
+	for _, st := range scopeStores(fn, "jobsTy") {
+		var leaves []ssa.Value
+		leafValues(st.Val, map[ssa.Value]bool{}, &leaves)
+		for _, l := range leaves {
+			call, ok := l.(*ssa.Call)
+			if !ok || len(call.Call.Args) != 1 {
+				return st.Pos(), "the jobs scope is not built from a map of per-job objects"
+			}
+			if f := staticCallee(&call.Call); f == nil || FuncName(f) != "NewStrictObjectType" {
+				return st.Pos(), "the jobs scope is not built from a map of per-job objects"
+			}
+			maps = append(maps, call.Call.Args[0])
+		}
+	}
+	if len(maps) == 0 {
+		return pos, "jobsTy is never stored"
+	}
+	n := 0
+	eachInstr(fn, func(_ *ssa.BasicBlock, _ int, in ssa.Instruction) {
+		mu, ok := in.(*ssa.MapUpdate)
+		if !ok || why != "" {
+			return
+		}
+		isTarget := false
+		for _, m := range maps {
+			if mu.Map == m {
+				isTarget = true
+			}
+		}
+		if !isTarget {
+			return
+		}
+		n++
+		pos = mu.Pos()
+		h, body := innermostLoop(mu.Block())
+		if h == nil {
+			why = "the entry is not made in a loop over the jobs"
+			return
+		}
+		if w := everyIteration(h, body, mu.Block()); w != "" {
+			why = "not every job gets its entry: " + w
+			return
+		}
+		// the job of the entry: looked up in the job table parameter under the entry's key
+		jobs := map[ssa.Value]bool{}
+		eachInstr(fn, func(_ *ssa.BasicBlock, _ int, in2 ssa.Instruction) {
+			lk, ok := in2.(*ssa.Lookup)
+			if !ok || lk.Index != mu.Key {
+				return
+			}
+			if _, isParam := lk.X.(*ssa.Parameter); !isParam {
+				return
+			}
+			if lk.CommaOk {
+				for _, ref := range *lk.Referrers() {
+					if ex, ok := ref.(*ssa.Extract); ok && ex.Index == 0 {
+						jobs[ex] = true
+					}
+				}
+			} else {
+				jobs[lk] = true
+			}
+		})
+		if len(jobs) == 0 {
+			// the key and the job come from one range over the job table
+			if f, idx := rangePart(mu.Key); strings.HasPrefix(f, "param:") && idx == 1 {
+				ex := mu.Key.(*ssa.Extract)
+				for _, ref := range *ex.Tuple.Referrers() {
+					if e2, ok := ref.(*ssa.Extract); ok && e2.Index == 2 {
+						jobs[e2] = true
+					}
+				}
+			}
+		}
+		if len(jobs) == 0 {
+			why = "the job of the entry is not the one found under the entry's key"
+			return
+		}
+		var leaves []ssa.Value
+		leafValues(mu.Value, map[ssa.Value]bool{}, &leaves)
+		if len(leaves) != 1 {
+			why = "the entry has more than one origin"
+			return
+		}
+		call, ok := leaves[0].(*ssa.Call)
+		if !ok || len(call.Call.Args) != 1 {
+			why = "the entry is not built from a map literal"
+			return
+		}
+		member := constMember(fn, call.Call.Args[0], "outputs")
+		if member == nil {
+			why = "the entry has no single member \"outputs\""
+			return
+		}
+		why = jobOutputsObject(fn, member, jobs)
+	})
+	if why == "" && n == 0 {
+		why = "nothing is entered into the map of the jobs scope"
+	}
+	return pos, why
+}
